@@ -313,9 +313,11 @@ def substitute(exprs, repl):  # noqa: C901
             expr = repl[expr]
             didrepl = True
         if didrepl:
+            # insert the replacement as is, it must not be substituted again
             changed = True
-            if expr is None:
-                continue
+            if expr is not None:
+                args[-1].append(expr)
+            continue
 
         if visited:
             children = args.pop()
